@@ -137,6 +137,8 @@ func (f *FavRaw) Save(userID *ptttype.UserID_t) (*FavRaw, error) {
 		return nil, err
 	}
 
+	verifCrashPoint()
+
 	// to rename
 	err = os.Rename(tmpFilename, filename)
 	if err != nil {
